@@ -10,7 +10,7 @@ PROP = dict(
                 "and the hashes recomputed from the read-back values must equal the stored ones. Values overlap in lifetime: several blocks are encoded before the "
                 "first of them is written, results of reads are held across later writes, batch/snapshot closes, Pebble flushes and reopenings, and several "
                 "goroutines use one store at once."),
-    rule=("arbitrary headers with nil/non-nil optional fields (in 1/8 of the accessor-level blocks the header's transaction / event counts differ from the stored lists: redundant copies no accessor may answer from), 0-12 (thorough 40) transactions of all 5 kinds x versions, receipts with events/messages/"
+    rule=("arbitrary headers with nil/non-nil optional fields (in 1/8 of the accessor-level blocks the header's transaction / event counts differ from the stored lists: redundant copies no accessor may answer from), 0-12 (thorough 40) transactions of all 5 kinds x versions (1/12 with the query bit 2^128 set in the version), receipts with events/messages/"
           "resources/revert reasons, state updates with every section populated or empty, Sierra and Cairo-0 classes; block numbers around CBOR width "
           "boundaries; memory and Pebble; Sierra program / CASM bytecode sizes around every CBOR header width, 2^16, 2^17 and up to 300001 felts "
           "with every limb width class of the felt codec (TestPropClassSizesRoundTrip); blocks of 255..2049 (thorough ..10007) transactions around powers of two, not multiples of 8, with every element of every bulk accessor compared (TestPropBigBlocksRoundTrip). Non-trivial = mixed-kind block, empty block, or nil optional header field; distinct = SHA-256 of block ids and shapes. "
